@@ -17,7 +17,9 @@ Tie:     correspondence.  For generated (bank, filter, width) the Gallina model
            - Gabor/gammatone: start bin, length, whole-period decision.
 Search:  the property itself, executed on the implementation (recipe from the
          docstring, 2*eps bound, exactness, half prefix, Hermitian symmetry,
-         analytic zeros, finiteness, start range, half-spectrum containment).
+         analytic zeros, finiteness, start range, half-spectrum containment); the same
+         clauses for banks built after config.EFFECTIVE_SUPPORT_THRESHOLD was lowered /
+         raised at run time, with the bounds relative to the value in force.
 """
 
 import math
@@ -289,6 +291,58 @@ def oracle(np, eps, bank, kind, i, w, obs=None):
     return bad
 
 
+def retuned_threshold(ctx, np, mods, config):
+    """EFFECTIVE_SUPPORT_THRESHOLD is a documented package setting that may be re-assigned at run time; the property
+    is stated in terms of the setting, i.e. of the value IN FORCE when the bank is built and asked.  Lower (and raise)
+    it after the modules were imported, build banks, and check the clauses of `oracle` with that value.
+    Returns [(case, violated clauses)]; the setting is restored on the way out."""
+    r = ctx.rng
+    shipped = config.EFFECTIVE_SUPPORT_THRESHOLD
+    bad = []
+    try:
+        for thr in [1e-4, 2e-5, 2e-3] + ctx.scale([], [1e-3, 1e-5, 5e-3, 3e-6]):
+            config.EFFECTIVE_SUPPORT_THRESHOLD = thr
+            kinds = ["gabor", "gt"] * ctx.scale(5, 30) + ["tri", "fbank"] * ctx.scale(1, 4)
+            for kind in kinds:
+                for _ in range(20):
+                    d = random_bank_desc(ctx, kind)
+                    if kind in ("gabor", "gt") and r.random() < 0.5:
+                        # everyday banks: many narrow filters (far from the whole-period regime)
+                        d.update(num_filts=r.choice([10, 23, 40]), scale=r.choice(["mel", "bark"]), low_hz=r.choice([0, 20.0]), high_hz=None)
+                        d.pop("scale_arg", None)
+                    bank = build(mods, d, np)
+                    if bank is not None:
+                        break
+                    ctx.count("ctor:not-constructible:" + kind)
+                else:
+                    continue
+                ctx.count("retuned-threshold:%g:%s" % (thr, kind))
+                nf = bank.num_filts
+                for i in sorted(set([0, nf - 1, r.randrange(nf)]))[:2]:
+                    ws = widths_for(ctx, bank, i, ctx.scale(5, 9))
+                    lo_hz, hi_hz = bank.supports_hz[i]
+                    if hi_hz - lo_hz > 300 * bank.sampling_rate:
+                        # (order-1 gammatones at a small threshold: the response is summed over thousands of periods - slow)
+                        ws = r.sample(ws, min(len(ws), 2))
+                        ctx.count("retuned-threshold:support-over-300-periods(2 widths only)")
+                    for w in ws:
+                        c = dict(desc=d, i=i, w=w, kind=kind, order=r.randrange(len(ORDERS)), threshold=thr)
+                        try:
+                            obs = observe(np, bank, i, w, c["order"])
+                            v = oracle(np, thr, bank, kind, i, w, obs)
+                            fr, hf, b, t = obs
+                            truncates = len(t) < (len(hf) if bank.is_real else w)
+                        except Exception as e:  # noqa: BLE001
+                            v, truncates = [("exception", repr(e))], False
+                        ctx.case(dict(kind=kind, bank=d, filt_idx=i, width=w, EFFECTIVE_SUPPORT_THRESHOLD=thr), nontrivial=truncates)
+                        ctx.count("retuned-threshold:" + ("response-truncated" if truncates else "whole-spectrum-kept"))
+                        if v:
+                            bad.append((c, v))
+    finally:
+        config.EFFECTIVE_SUPPORT_THRESHOLD = shipped
+    return bad
+
+
 # --------------------------------------------------------------------------
 # correspondence helpers
 
@@ -535,7 +589,10 @@ def _run(ctx):
         ctx.count("width-parity:" + ("odd" if w % 2 else "even"))
 
     def pub(c):
-        return dict(bank=c["desc"], filt_idx=c["i"], width=c["w"], query_order=list(ORDERS[c.get("order", 0)]))
+        d = dict(bank=c["desc"], filt_idx=c["i"], width=c["w"], query_order=list(ORDERS[c.get("order", 0)]))
+        if "threshold" in c:
+            d["EFFECTIVE_SUPPORT_THRESHOLD"] = c["threshold"]  # config setting re-assigned after import, before the bank is built
+        return d
 
     for c, v in bad_impl[:10]:
         ctx.fail("property violated on the implementation: %s" % (v,), dict(input=pub(c), violated=v), kind="impl")
@@ -882,6 +939,12 @@ def _run(ctx):
                 extra_bad.append((dict(desc=d, i=i, w=w), v))
     for c, v in extra_bad[:5]:
         ctx.fail("property violated on the implementation: %s" % (v,), dict(input=pub(c), violated=v), kind="impl")
+    # ---------------- the same clauses with the package setting EFFECTIVE_SUPPORT_THRESHOLD re-assigned at run time
+    retuned_bad = retuned_threshold(ctx, np, mods, config)
+    ctx.log("re-tuned EFFECTIVE_SUPPORT_THRESHOLD: %d violate the property" % len(retuned_bad))
+    for c, v in retuned_bad[:5]:
+        ctx.fail("property violated on the implementation for a bank built after config.EFFECTIVE_SUPPORT_THRESHOLD was set to %g "
+                 "(bounds are relative to the threshold in force): %s" % (c["threshold"], v), dict(input=pub(c), violated=v), kind="impl")
 
     ctx.cov["rule"] = (
         "one evaluation = one (bank, filter, DFT width) on which the Gallina model (run inside Coq on the exact rationals of "
@@ -918,15 +981,21 @@ def replay(ctx, rp):
     if not inp:
         print("no concrete input recorded:", f.get("what"))
         return 1
-    bank = make_bank((filters, scales_mod), inp["bank"])
-    order = ORDERS.index(tuple(inp["query_order"])) if inp.get("query_order") else 0
+    shipped = config.EFFECTIVE_SUPPORT_THRESHOLD
     try:
-        obs = observe(np, bank, inp["filt_idx"], inp["width"], order)
-    except Exception as e:  # noqa: BLE001
-        print("input:", inp)
-        print("property clauses violated on the implementation:", [("exception", repr(e))])
-        return 1
-    v = oracle(np, float(config.EFFECTIVE_SUPPORT_THRESHOLD), bank, inp["bank"]["kind"], inp["filt_idx"], inp["width"], obs)
+        if inp.get("EFFECTIVE_SUPPORT_THRESHOLD") is not None:
+            config.EFFECTIVE_SUPPORT_THRESHOLD = inp["EFFECTIVE_SUPPORT_THRESHOLD"]  # re-assigned after import, as recorded
+        bank = make_bank((filters, scales_mod), inp["bank"])
+        order = ORDERS.index(tuple(inp["query_order"])) if inp.get("query_order") else 0
+        try:
+            obs = observe(np, bank, inp["filt_idx"], inp["width"], order)
+        except Exception as e:  # noqa: BLE001
+            print("input:", inp)
+            print("property clauses violated on the implementation:", [("exception", repr(e))])
+            return 1
+        v = oracle(np, float(config.EFFECTIVE_SUPPORT_THRESHOLD), bank, inp["bank"]["kind"], inp["filt_idx"], inp["width"], obs)
+    finally:
+        config.EFFECTIVE_SUPPORT_THRESHOLD = shipped
     fr, hf, b, t = obs
     print("input:", inp)
     print("truncated: start", b, "length", len(t))
